@@ -35,20 +35,26 @@ RULE = ('cases: (shift) lists of 1..4 angular / first-order dispersive / higher-
         '(reuse) one wavefront already carrying tilt (Wavefront(tilt) / fit_tilt / earlier Tilt plane) re-used for 2..4 Tilt planes, each propagated; '
         '(equiv) pupils with tilt 0.01 px .. beyond the output expressed as OPD ramp / Tilt plane / Wavefront(tilt) / fit_tilt / '
         'several elements in different orders, segmented apertures with per-segment tilts, non-square output pixels, os 1..3. '
-        'distinct = (kind, shapes, element kinds, order, sampling class); non-trivial = everything but a single zero tilt')
+        'distinct = (kind, shapes, element kinds, order, sampling class); non-trivial = everything but a single zero tilt'
+        ' Extremes stream: every length scaled by 1e-9..1e3, the same tilt objects asked at wavelengths 3e-6..3e-4 apart (relative) and compared with fresh objects, lists of up to 47 tilt elements, almost-square output pixels, planes with more than 2**18 samples (1-D-like and 513..530 square; oracle only).')
 TRUSTED = ['np.linalg.lstsq returns a solution of the normal equations of the masked basis (contract; hypothesis hN of fit_tilt_is_least_squares; the oracle re-solves them)',
            'np.einsum / reshape / broadcasting as modelled in Model/Tilt.lean; propagate_dft as modelled for C02']
 UNPROVEN = ['higher-order DispersiveTilt trace/dispersion (scipy.optimize.leastsq, scipy.integrate.quad): oracle residual checks only',
             'lstsq solves the normal equations: contract, checked numerically',
             'tilt-list sharing between products (aliasing) and Plane.copy in fit_tilt(inplace=False): correspondence + oracle']
-ASSUMPTIONS = ['binary masks, pairwise disjoint segments; least-squares uniqueness checked only when a segment has 3 non-collinear pixels',
+ASSUMPTIONS = ['planes with > 2**18 samples are generated for length scales >= 1e-6 only: with pixel scales ~1e-11 m and ~1e5 samples the tip column '
+               'of the unscaled basis [1, r*px, -c*px] falls below np.linalg.lstsq\'s rank cutoff (eps*N) and is dropped (recorded tilt 0): a unit-dependence of '
+               'the solver call, reported as an observation',
+               'higher-order DispersiveTilt is generated for length scales >= 1e-6 only: scipy.optimize.leastsq(x0=0) does not move at all when every '
+               'length is ~1e-16 (a scale dependence of the numerical root finding, physically irrelevant; first-order elements are exact at all scales)',
+               'binary masks, pairwise disjoint segments; least-squares uniqueness checked only when a segment has 3 non-collinear pixels',
                'generated tilt shifts keep a fractional part in [0.05,0.95] so that np.fix is insensitive to rounding']
 
-WL, Z = P.WL, P.Z      # current case's base wavelength / focal length (set per case by `_use`)
+WL, Z, KS = P.WL, P.Z, 1.0      # current case's base wavelength / focal length / length scale (set per case by `_use`)
 
 def _use(c):
-    global WL, Z
-    WL = c.get('WL', P.WL); Z = c.get('Z', P.Z)
+    global WL, Z, KS
+    WL = c.get('WL', P.WL); Z = c.get('Z', P.Z); KS = c.get('KS', 1.0)
 
 # ------------------------------------------------------------------------------------------ generators
 def _el(rng, du, os_, allow_high=True):
@@ -58,24 +64,28 @@ def _el(rng, du, os_, allow_high=True):
         px = [float(rng.uniform(-s, s)), float(rng.uniform(-s, s))]
         return {'k': 'a', 'x': px[0] * du[0] / (Z * os_), 'y': -px[1] * du[1] / (Z * os_)}
     if k <= 4:
-        return {'k': 'd', 'trace': [float(rng.uniform(-2, 2)), float(rng.uniform(-1e-4, 1e-4))],
-                'disp': [float(rng.choice([-1, 1]) * rng.uniform(5e-5, 4e-4)), float(WL + rng.uniform(-1e-7, 1e-7))]}
-    return {'k': 'dh', 'trace': [float(rng.uniform(-20, 20)), float(rng.uniform(-1, 1)), float(rng.uniform(-1e-4, 1e-4))],
-            'disp': [float(rng.uniform(-2e-3, 2e-3)), float(rng.choice([-1, 1]) * rng.uniform(5e-5, 4e-4)), float(WL + rng.uniform(-5e-8, 5e-8))]}
+        return {'k': 'd', 'trace': [float(rng.uniform(-2, 2)), float(rng.uniform(-1e-4, 1e-4)) * KS],
+                'disp': [float(rng.choice([-1, 1]) * rng.uniform(5e-5, 4e-4)), float(WL + rng.uniform(-1e-7, 1e-7) * KS)]}
+    return {'k': 'dh', 'trace': [float(rng.uniform(-20, 20)) / KS, float(rng.uniform(-1, 1)), float(rng.uniform(-1e-4, 1e-4)) * KS],
+            'disp': [float(rng.uniform(-2e-3, 2e-3)) / KS, float(rng.choice([-1, 1]) * rng.uniform(5e-5, 4e-4)), float(WL + rng.uniform(-5e-8, 5e-8) * KS)]}
 
 def _du(rng, os_):
     a = float(rng.uniform(0.05, 0.3))
-    if rng.integers(0, 2): return [a * WL * Z * os_ * 64, a * WL * Z * os_ * 64]
+    if rng.integers(0, 2): return [a * WL * Z * os_ * 64 / KS, a * WL * Z * os_ * 64 / KS]
     b = float(rng.uniform(0.05, 0.3))
-    return [a * WL * Z * os_ * 64, b * WL * Z * os_ * 64]
+    if rng.integers(0, 4) == 0: b = a * (1 + float(rng.choice([-1, 1]) * 10 ** rng.uniform(-5, -2.5)))      # almost square pixels
+    return [a * WL * Z * os_ * 64 / KS, b * WL * Z * os_ * 64 / KS]
 
-def _gen_shift(rng):
+def _gen_shift(rng, nmax=5, allow_high=True):
     os_ = int(rng.integers(1, 5))
     du = _du(rng, os_)
-    n = int(rng.integers(1, 5))
-    tilts = [_el(rng, du, os_) for _ in range(n)]
+    n = int(rng.integers(1, nmax))
+    tilts = [_el(rng, du, os_, allow_high) for _ in range(n)]
     perm = [int(x) for x in rng.permutation(n)]
-    return {'kind': 'shift', 'tilts': tilts, 'perm': perm, 'du': du, 'os': os_, 'wl': float(WL + rng.uniform(-5e-8, 5e-8))}
+    wl = float(WL + rng.uniform(-5e-8, 5e-8) * KS)
+    # a second and third wavelength very close to the first (fine spectral grids), evaluated on the SAME tilt objects
+    return {'kind': 'shift', 'tilts': tilts, 'perm': perm, 'du': du, 'os': os_, 'wl': wl,
+            'wl2': [wl * (1 + float(rng.choice([-1, 1]) * 10 ** rng.uniform(-5.5, -3.5))), wl * (1 + 3e-5)]}
 
 def _mask_ok(mk):
     """the segment has three non-collinear pixels, i.e. the least-squares piston/tip/tilt is unique"""
@@ -86,7 +96,7 @@ def _mask_ok(mk):
 
 def _gen_fit(rng):
     m, n = int(rng.integers(2, 8)), int(rng.integers(2, 8))
-    px = [1 / 64, 1 / 64] if rng.integers(0, 2) else [float(rng.choice([1 / 64, 1 / 32, 3 / 128])), float(rng.choice([1 / 64, 1 / 32, 3 / 128]))]
+    px = [KS / 64, KS / 64] if rng.integers(0, 2) else [float(rng.choice([1 / 64, 1 / 32, 3 / 128])) * KS, float(rng.choice([1 / 64, 1 / 32, 3 / 128])) * KS]
     nseg = int(rng.integers(1, 4)) if m * n >= 9 else 1
     lab = rng.integers(0, nseg + 1, (m, n)) if nseg > 1 else (rng.integers(0, 4, (m, n)) > 0).astype(int)
     if rng.integers(0, 4) == 0 and nseg == 1: lab[:] = 1
@@ -96,7 +106,7 @@ def _gen_fit(rng):
     opd = rng.integers(-8, 9, (m, n)) * (WL / 32)
     for k in range(1, nseg + 1):
         tx, ty = rng.uniform(-2e-6, 2e-6, 2)
-        opd = opd + (lab == k) * (tx * r * px[0] - ty * c * px[1] + rng.uniform(-1e-7, 1e-7))
+        opd = opd + (lab == k) * (tx * r * px[0] - ty * c * px[1] + rng.uniform(-1e-7, 1e-7) * KS)
     upd = None
     if rng.integers(0, 2):
         tx, ty = rng.uniform(-2e-6, 2e-6, 2)
@@ -106,9 +116,25 @@ def _gen_fit(rng):
             'inplace': bool(rng.integers(0, 2)), 'amp_scalar': bool(rng.integers(0, 3) == 0),
             'preloaded': None if rng.integers(0, 3) else [[float(rng.uniform(-2e-6, 2e-6)), float(rng.uniform(-2e-6, 2e-6))] for _ in range(nseg)]}
 
+def _gen_fit_big(rng):
+    """planes with more than 2**18 samples (1-D-like or square): the least-squares tip/tilt must still be exact.
+    Too large for the interpreted model: oracle only (`nomodel`)."""
+    if rng.integers(0, 2): m = int(rng.integers(2, 5)); n = 2 ** 18 // m + int(rng.integers(1, 3000))
+    else: m = int(rng.integers(513, 530)); n = int(rng.integers(513, 530))
+    if rng.integers(0, 2): m, n = n, m
+    px = [KS / 64, KS / 64] if rng.integers(0, 2) else [KS / 64, KS / 32]
+    lab = np.ones((m, n), int)
+    lab[rng.integers(0, m), :] = 0
+    r = np.arange(m)[:, None] - m // 2; c = np.arange(n)[None, :] - n // 2
+    tx, ty = rng.uniform(-2e-6, 2e-6, 2)
+    opd = rng.integers(-8, 9, (m, n)) * (WL / 32) + (tx * r * px[0] - ty * c * px[1]) + WL * 0.3 * np.sin(0.37 * r) * np.cos(0.11 * c)
+    return {'kind': 'fit', 'nomodel': True, 'big': True, 'shape': [m, n], 'px': px, 'scalar_px': False, 'labels': [int(x) for x in lab.ravel()],
+            'nseg': 1, 'opd': [float(x) for x in opd.ravel()], 'update': None, 'inplace': bool(rng.integers(0, 2)), 'amp_scalar': True,
+            'preloaded': None}
+
 def _gen_equiv(rng):
     m, n = int(rng.integers(2, 7)), int(rng.integers(2, 7))
-    dx = [1 / 64, 1 / 64] if rng.integers(0, 2) else [float(rng.choice([1 / 64, 1 / 32])), float(rng.choice([1 / 64, 1 / 32]))]
+    dx = [KS / 64, KS / 64] if rng.integers(0, 2) else [float(rng.choice([1 / 64, 1 / 32])) * KS, float(rng.choice([1 / 64, 1 / 32])) * KS]
     os_ = int(rng.integers(1, 4))
     al = [float(rng.uniform(0.04, 0.3)), float(rng.uniform(0.04, 0.3))]
     if rng.integers(0, 3) == 0: al[1] = al[0]
@@ -164,16 +190,31 @@ def _gen_reuse(rng):
     c['tilt_px'] = [base]; c['scan'] = scan; c['prop_shape'] = None
     return c
 
+SCALES = [1e-9, 1e-6, 1e-3, 1.0, 1e3]
+
 def generate(rng, tier):
     n = {'quick': 160, 'thorough': 3000, 'search': 300}[tier]
     out = []
-    for k in range(n):
-        t = k % 4
-        base = {'WL': float(rng.choice([5e-7, 4.25e-7, 6.5e-7, 1.1e-6])), 'Z': float(rng.choice([8.0, 2.5, 20.0, 0.75]))}
+    def one(make, ks=1.0):
+        base = {'WL': float(rng.choice([5e-7, 4.25e-7, 6.5e-7, 1.1e-6])) * ks, 'Z': float(rng.choice([8.0, 2.5, 20.0, 0.75])) * ks}
+        if ks != 1.0: base['KS'] = ks
         _use(base)
-        c = _gen_shift(rng) if t == 0 else _gen_fit(rng) if t == 1 else _gen_equiv(rng) if t == 2 else _gen_reuse(rng)
+        c = make()
         c.update(base)
         out.append(c)
+    for k in range(n):
+        t = k % 4
+        one(lambda: _gen_shift(rng) if t == 0 else _gen_fit(rng) if t == 1 else _gen_equiv(rng) if t == 2 else _gen_reuse(rng))
+    # extremes stream: tiny/huge physical scales, long tilt lists (> 32 elements), planes with > 2**18 samples
+    for k in range({'quick': 10, 'thorough': 120, 'search': 120}[tier]):
+        t = k % 10 if tier != 'search' else k % 20
+        ks = float(rng.choice(SCALES))
+        if t in (9, 19) and (tier != 'search' or t == 9): one(lambda: _gen_fit_big(rng), max(ks, 1e-6) if tier != 'quick' else 1.0)
+        elif t in (8, 18): one(lambda: _gen_shift(rng, nmax=48, allow_high=False), ks)
+        elif t % 4 == 0: one(lambda: _gen_shift(rng, allow_high=(ks >= 1e-6)), ks)
+        elif t % 4 == 1: one(lambda: _gen_fit(rng), ks)
+        elif t % 4 == 2: one(lambda: _gen_equiv(rng), ks)
+        else: one(lambda: _gen_reuse(rng), ks)
     _use({})
     return out
 
@@ -197,7 +238,10 @@ def _impl_shift(c):
             'rev_ij': _shift_of(objs[::-1], c, 'ij'),
             'each_ij': [_shift_of([o], c, 'ij') for o in objs],
             'each_m': [[_f(v) for v in o.shift(xs=0.0, ys=0.0, z=Z, wavelength=c['wl'])] for o in objs],
-            'from_m': [[_f(v) for v in o.shift(xs=1e-3, ys=-2e-3, z=Z, wavelength=c['wl'])] for o in objs]}
+            'from_m': [[_f(v) for v in o.shift(xs=1e-3 * KS, ys=-2e-3 * KS, z=Z, wavelength=c['wl'])] for o in objs],
+            # history: the SAME objects asked again at wavelengths very close to the first, then at the first again
+            'again_m': [[[_f(v) for v in o.shift(xs=0.0, ys=0.0, z=Z, wavelength=w)] for o in objs] for w in list(c.get('wl2', [])) + [c['wl']]],
+            'fresh_m': [[[_f(v) for v in _obj(e).shift(xs=0.0, ys=0.0, z=Z, wavelength=w)] for e in c['tilts']] for w in list(c.get('wl2', [])) + [c['wl']]]}
 
 def _plane(c, opd):
     import lentil
@@ -352,6 +396,7 @@ def _tj(e):
 
 def requests(c, io):
     _use(c)
+    if c.get('nomodel'): return []
     if 'exc' in io: return []
     if c['kind'] == 'shift':
         if any(e['k'] == 'dh' for e in c['tilts']): return []
@@ -393,6 +438,7 @@ def _close(a, b, scale, rel=1e-11):
 
 def compare(c, io, mo):
     _use(c)
+    if c.get('nomodel'): return None
     if 'exc' in io: return f"implementation raised {io['exc']}: {io.get('msg')}"
     for m in mo:
         if not m.get('ok'): return f"model refused: {m.get('err')}"
@@ -437,6 +483,19 @@ def _arc(trace, x, n=400):
 
 def _oracle_shift(c, io):
     du, os_ = c['du'], c['os']
+    # no dependence on history: an element asked at another (very close) wavelength answers like a fresh element, and for a
+    # first-order dispersive element that answer is on the trace at the arc length mapped to THAT wavelength
+    wls = list(c.get('wl2', [])) + [c['wl']]
+    for w, again, fresh in zip(wls, io.get('again_m', []), io.get('fresh_m', [])):
+        for e, a_, f_ in zip(c['tilts'], again, fresh):
+            sc_m = max(abs(f_[0]), abs(f_[1]), 1e-30)
+            if abs(a_[0] - f_[0]) > 1e-12 * sc_m or abs(a_[1] - f_[1]) > 1e-12 * sc_m:
+                return (f"{e['k']}: the same tilt element asked at wavelength {w!r} (after {c['wl']!r}) returns {a_}, a fresh element returns {f_}: "
+                        f"the displacement depends on the call history")
+            if e['k'] == 'd':
+                d = (w - e['disp'][1]) / e['disp'][0]
+                if abs(np.hypot(a_[0], a_[1] - e['trace'][1]) - abs(d)) > 1e-9 * abs(d) + 1e-30:
+                    return f"d: at wavelength {w!r} the displacement {a_} is at arc length {np.hypot(a_[0], a_[1] - e['trace'][1])!r}, the dispersion maps it to {abs(d)!r}"
     sc = max(1e-3, max(abs(v) for v in io['ij']))
     tot = [sum(e[0] for e in io['each_ij']), sum(e[1] for e in io['each_ij'])]
     if not _close(io['ij'], tot, sc, 1e-9): return f"shift of the list {io['ij']} is not the sum of the individual displacements {tot}"
@@ -445,7 +504,7 @@ def _oracle_shift(c, io):
     if not _close(io['xy'], [io['ij'][1], -io['ij'][0]], sc, 1e-12): return f"'xy' {io['xy']} and 'ij' {io['ij']} outputs are inconsistent"
     for e, m_, f_, ij in zip(c['tilts'], io['each_m'], io['from_m'], io['each_ij']):
         # incoming shift is added
-        if not _close(f_, [m_[0] + 1e-3, m_[1] - 2e-3], 1e-3, 1e-9): return f"{e['k']}: incoming shift not added: {f_} vs {m_}"
+        if not _close(f_, [m_[0] + 1e-3 * KS, m_[1] - 2e-3 * KS], 1e-3 * KS, 1e-9): return f"{e['k']}: incoming shift not added: {f_} vs {m_}"
         # metres -> oversampled pixels with the pixel size of the SAME axis; x -> columns, y -> -rows
         want_ij = [-m_[1] / du[0] * os_, m_[0] / du[1] * os_]
         if not _close(ij, want_ij, max(1e-3, abs(want_ij[0]), abs(want_ij[1])), 1e-9): return f"{e['k']}: pixel shift {ij} != (-y/du0, x/du1)*os {want_ij}"
@@ -623,9 +682,9 @@ def oracle(c, io):
 
 # ------------------------------------------------------------------------------------------ coverage
 def signature(c):
-    if c['kind'] == 'shift': return f"shift {[e['k'] for e in c['tilts']]} perm={c['perm']} os={c['os']} du={c['du'][0]:.4g},{c['du'][1]:.4g}"
+    if c['kind'] == 'shift': return f"shift ks={c.get('KS')} n={len(c['tilts'])} {[e['k'] for e in c['tilts']][:6]} perm={c['perm']} os={c['os']} du={c['du'][0]:.4g},{c['du'][1]:.4g}"
     if c['kind'] == 'reuse': return f"reuse {c['base_kind']} {c['shape']} S={c['out_shape']} os={c['os']} base={[round(v, 2) for v in c['tilt_px'][0]]} scan={[[round(v, 2) for v in t] for t in c['scan']]}"
-    if c['kind'] == 'fit': return f"fit pre={c.get('preloaded') is not None} inpl={c['inplace']} {c['shape']} nseg={c['nseg']} px={c['px']} upd={c['update'] is not None} lab={c['labels'][:12]} opd0={c['opd'][0]:.4g}"
+    if c['kind'] == 'fit': return f"fit ks={c.get('KS')} pre={c.get('preloaded') is not None} inpl={c['inplace']} {c['shape']} nseg={c['nseg']} px={c['px']} upd={c['update'] is not None} lab={c['labels'][:12]} opd0={c['opd'][0]:.4g}"
     return f"equiv {c['shape']} nseg={c['nseg']} S={c['out_shape']} os={c['os']} tilt={[[round(v, 2) for v in t] for t in c['tilt_px']]} ps={c['prop_shape']}"
 
 def nontrivial(c):
@@ -635,6 +694,9 @@ def nontrivial(c):
 
 def tags(c):
     t = [c['kind']]
+    if c.get('KS'): t.append(f"scale={c['KS']:g}")
+    if c.get('big'): t.append('fit:>2^18 samples')
+    if c['kind'] == 'shift' and len(c['tilts']) > 32: t.append('shift:>32 elements')
     if c['kind'] == 'shift':
         t += sorted({'el:' + e['k'] for e in c['tilts']}); t.append(f"n={len(c['tilts'])}")
         if c['du'][0] != c['du'][1]: t.append('du:non-square')
